@@ -238,10 +238,11 @@ def evaluate(fmt, options, cli=None, cwd="proj", config_extra=None, select=False
             toml.write_text('name = "demo"\n[extra.fortitude.check]\nselect = ["C", "E"]\n')
         elif fmt == "md+no-extra":
             toml.write_text('name = "demo"\nversion = "0.1.0"\n[build]\nauto-executables = true\n')
+        bom = "\ufeff" if fmt == "md+bom" else ""  # the project file saved with a UTF-8 byte-order mark
         lines = []
         for k, v in {**base_opts, **opts}.items():
             lines += md_lines(k, v, OPTION_SEPARATORS.get(k, "="))
-        text = "\n".join(lines) + "\n\n" + body
+        text = bom + "\n".join(lines) + "\n\n" + body
     elif fmt == "toml":
         text = body
         toml.write_text("[extra.ford]\n" + "\n".join(f"{k} = {toml_value(v)}" for k, v in {**base_opts, **opts}.items()) + "\n")
@@ -322,7 +323,7 @@ def check_formats(st: Stats, options, stratum, feats, cwd="proj"):
     fields, _ = field_table()
     root = workdir()
     res = {}
-    FMTS = ("md", "toml", "config", "md+extra-other", "md+no-extra")
+    FMTS = ("md", "toml", "config", "md+extra-other", "md+no-extra", "md+bom")
     for fmt in FMTS:
         res[fmt] = evaluate(fmt, options, cwd=cwd)
         st.evaluations += 1
@@ -342,7 +343,7 @@ def check_formats(st: Stats, options, stratum, feats, cwd="proj"):
         return
     c = {f: canon_settings(r[0]) for f, r in res.items()}
     st.states.add(core.digest(c["md"]))
-    for a, b in (("md", "toml"), ("md", "config"), ("toml", "config"), ("md", "md+extra-other"), ("md", "md+no-extra")):
+    for a, b in (("md", "toml"), ("md", "config"), ("toml", "config"), ("md", "md+extra-other"), ("md", "md+no-extra"), ("md", "md+bom")):
         diff = {k: (c[a].get(k), c[b].get(k)) for k in set(c[a]) | set(c[b]) if c[a].get(k) != c[b].get(k)}
         if diff:
             bad += 1
